@@ -183,9 +183,9 @@ def build_domain(ctx, rnd):
         fams.append(("two-groups", list(family_two_groups()), 200))
     else:
         fams.append(("plain", list(family_plain(4)), None))
-        fams.append(("one-group", list(family_one_group()), 12000))
-        fams.append(("three-alts", list(family_three_alts()), None))
-        fams.append(("nested", list(family_nested()), None))
+        fams.append(("one-group", list(family_one_group()), 8000))
+        fams.append(("three-alts", list(family_three_alts()), 4000))
+        fams.append(("nested", list(family_nested()), 4000))
         fams.append(("two-groups", list(family_two_groups()), None))
     seen = set()
     out = []
